@@ -9,6 +9,8 @@ for d in sorted(glob.glob(os.path.join(V, "seeded", "*"))):
     if not os.path.exists(mp):
         continue
     m = json.load(open(mp))
+    if "property" not in m:
+        continue                      # benign-* entries (false-alarm test) are summarised in DESIGN.md 7.8
     extra = SUMM.get("%s-%s" % (m["property"], m["k"]), {})
     if extra and (m.get("summary") != extra.get("summary") or m.get("needs") != extra.get("needs")):
         m.update(extra)
